@@ -170,7 +170,7 @@ def run(ctx):
   try:
     vocab = ['the', 'a', 'of', 'jax', 'fed']
     tok = dso.StackoverflowTokenizer(vocab=vocab, default_vocab_size=len(vocab), num_oov_buckets=1)
-    mo = mso.create_lstm_model(vocab_size=len(vocab), num_oov_buckets=1, embed_size=8, lstm_hidden_size=8, lstm_num_layers=1)
+    mo = mso.create_lstm_model(vocab_size=len(vocab), embed_size=8, lstm_hidden_size=8, lstm_num_layers=1)
     ex = tok.as_preprocess_batch(max_length=6)({'tokens': np.array([b'the jax zzz of', b'a'], dtype=object)})
     x, y = np.asarray(ex['x']), np.asarray(ex['y'])
     got = ids_of(mo, None)
@@ -183,8 +183,8 @@ def run(ctx):
                'holds': bool(x[0][0] == tok.BOS and y[0][4] == tok.EOS and list(x[0][1:5]) == list(y[0][:4]) and y[1][1] == tok.EOS and np.all(y[1][2:] == tok.PAD))})
     so_ok = True
   except Exception as ex_:  # pylint: disable=broad-except
-    ctx.notes.append(f'stackoverflow tokenizer / model not exercised: {type(ex_).__name__}: {str(ex_)[:100]}')
-    so_ok = False
+    # (never skipped silently: a part of the property that cannot be exercised is a machinery failure)
+    raise Machinery(f'stackoverflow tokenizer / model not exercised: {type(ex_).__name__}: {str(ex_)[:200]}')
   # CIFAR eval preprocessing vs TensorFlow, all crop sizes; training crops are sub-windows
   import tensorflow as tf  # pylint: disable=g-import-not-at-top
   kinds = {'random': lambda: nprng.randint(0, 256, size=(32, 32, 3)), 'low_contrast': lambda: 120 + nprng.randint(0, 3, size=(32, 32, 3)),
@@ -256,7 +256,11 @@ def run(ctx):
   row_independence('emnist dense', memnist.create_dense_model(only_digits=True), emnist_rows)
   row_independence('shakespeare lstm', mshake.create_lstm_model(embed_size=8, lstm_hidden_size=16, lstm_num_layers=2), seq_rows(80, 6))
   if so_ok:
-    row_independence('stackoverflow lstm', mso.create_lstm_model(vocab_size=20, num_oov_buckets=1, embed_size=8, lstm_hidden_size=8, lstm_num_layers=1), seq_rows(20, 6))
+    row_independence('stackoverflow lstm', mso.create_lstm_model(vocab_size=20, embed_size=8, lstm_hidden_size=8, lstm_num_layers=1), seq_rows(20, 6))
+    row_independence('stackoverflow lstm (shared embeddings)', mso.create_lstm_model(vocab_size=20, embed_size=8, lstm_hidden_size=8, lstm_num_layers=2,
+                                                                                     share_input_output_embeddings=True), seq_rows(20, 6))
+    row_independence('stackoverflow lstm (expected length)', mso.create_lstm_model(vocab_size=20, embed_size=8, lstm_hidden_size=8, lstm_num_layers=1,
+                                                                                   expected_length=3.0), seq_rows(20, 5))
   vs, _ = vtraces.validate_batch(ctx, 'PureHistory', [{'events': ev}], {}, 'PH')
   v = vs[0]
   if not v.ok:
